@@ -18,6 +18,7 @@ import (
 	"github.com/btcsuite/btcd/chaincfg/chainhash"
 	"github.com/btcsuite/btcd/txscript"
 	"github.com/btcsuite/btcd/wire"
+	"github.com/btcsuite/btclog"
 	"github.com/btcsuite/btcwallet/chain"
 	"github.com/btcsuite/btcwallet/snacl"
 	"github.com/btcsuite/btcwallet/waddrmgr"
@@ -39,6 +40,12 @@ var (
 
 func fastScrypt() {
 	fastOnce.Do(func() {
+		if os.Getenv("WSIM_LOG") != "" {
+			backend := btclog.NewBackend(os.Stderr)
+			l := backend.Logger("WLLT")
+			l.SetLevel(btclog.LevelDebug)
+			wallet.UseLogger(l)
+		}
 		waddrmgr.SetSecretKeyGen(func(p *[]byte, _ *waddrmgr.ScryptOptions) (*snacl.SecretKey, error) {
 			return snacl.NewSecretKey(p, 16, 8, 1)
 		})
@@ -161,10 +168,39 @@ func (s *Sim) Attach() {
 	s.Feed(chain.ClientConnected{})
 }
 
-// Feed delivers one notification and waits until it has been processed.
+// StuckError is the panic value raised when the wallet's notification loop
+// does not accept a notification (or its barrier) within FeedTimeout: the
+// wallet is stuck, e.g. its start-up synchronisation fails and retries forever.
+type StuckError struct{ What string }
+
+func (e *StuckError) Error() string {
+	return "wallet notification loop stuck while processing " + e.What
+}
+
+// FeedTimeout bounds how long Feed waits for the wallet to take a value.
+var FeedTimeout = 15 * time.Second
+
+func (s *Sim) send(v interface{}, what string) {
+	select {
+	case s.BE.ntfns <- v:
+	case <-time.After(FeedTimeout):
+		// shut the stuck wallet down so that its goroutines end, then report
+		w := s.W
+		go func() {
+			if w != nil {
+				w.Stop()
+			}
+		}()
+		panic(&StuckError{What: what})
+	}
+}
+
+// Feed delivers one notification and waits until it has been processed. It
+// panics with *StuckError if the wallet does not get there within FeedTimeout.
 func (s *Sim) Feed(n interface{}) {
-	s.BE.ntfns <- n
-	s.BE.ntfns <- barrier{}
+	what := fmt.Sprintf("%T", n)
+	s.send(n, what)
+	s.send(barrier{}, what)
 }
 
 // FinishRescans answers every pending Rescan request with RescanFinished at
@@ -329,3 +365,39 @@ func FundingTx(tag string, addr btcutil.Address, amt int64) *wire.MsgTx {
 func (s *Sim) SyncedTo() waddrmgr.BlockStamp { return s.W.Manager.SyncedTo() }
 
 var _ = bytes.Equal
+
+// ServeRescans answers every pending Rescan request the way a real backend
+// does: relevant transactions of the best-chain blocks after the start block
+// are delivered (RelevantTx with block), then RescanFinished at the tip. All
+// sent by the feeder. Then waits for quiescence.
+func (s *Sim) ServeRescans() {
+	s.BE.mu.Lock()
+	reqs := s.BE.RescanReqs
+	s.BE.RescanReqs = nil
+	s.BE.mu.Unlock()
+	for _, r := range reqs {
+		start := int32(0)
+		if b, ok := s.Chain.ByHash[r.Start]; ok && s.Chain.OnBest(b) {
+			start = b.Height
+		}
+		for h := start + 1; h <= s.Chain.Tip.Height; h++ {
+			b := s.Chain.AtHeight(h)
+			meta := b.Meta()
+			for _, tx := range b.Txs {
+				rec, _ := wtxmgr.NewTxRecordFromMsgTx(tx, b.Header.Timestamp)
+				s.Feed(chain.RelevantTx{TxRecord: rec, Block: &meta})
+			}
+		}
+	}
+	s.FinishRescans()
+}
+
+// SetTip changes the model's best chain without notifying the wallet (chain
+// evolution while the wallet is stopped, or before a notification).
+func (s *Sim) SetTip(b *Block) {
+	if s.BE != nil {
+		s.BE.mu.Lock()
+		defer s.BE.mu.Unlock()
+	}
+	s.Chain.Tip = b
+}
